@@ -481,6 +481,9 @@ func (g *gen) field(thisField, thatField string, fieldType types.Type) (string, 
 	case *types.Map:
 		return fmt.Sprintf("%s(%s, %s)", g.GetFuncName(typ, typ), thisField, thatField), nil
 	case *types.Struct:
+		if _, isNamed := fieldType.(*types.Named); !isNamed {
+			return "", fmt.Errorf("unsupported type: a struct without a name that cannot be compared with ==: %s", g.TypeString(fieldType))
+		}
 		return g.field("&"+thisField, "&"+thatField, types.NewPointer(fieldType))
 	default: // *Chan, *Tuple, *Signature, *Interface, *types.Basic.Kind() == types.UntypedNil, *Struct
 		return "", fmt.Errorf("unsupported type %#v", fieldType)
